@@ -462,3 +462,49 @@
             }
         }
     }
+
+    pub proof fn lemma_has_name_by_name(e: Seq<Hdr>, n: Seq<u8>)
+        ensures has_name(e, n) <==> by_name(e, n).len() > 0
+        decreases e.len()
+    {
+        if e.len() > 0 {
+            lemma_has_name_by_name(e.drop_last(), n);
+            if e.last().name == n {
+                assert(e[e.len() - 1].name == n);
+            } else if has_name(e, n) {
+                let i = choose|i: int| 0 <= i < e.len() && e[i].name == n;
+                assert(e.drop_last()[i].name == n);
+            } else if has_name(e.drop_last(), n) {
+                let i = choose|i: int| 0 <= i < e.drop_last().len() && e.drop_last()[i].name == n;
+                assert(e[i].name == n);
+            }
+        }
+    }
+    /// first_value in terms of by_name (so that it is preserved by hdr_multiset_order)
+    pub proof fn lemma_first_value_by_name(e: Seq<Hdr>, n: Seq<u8>)
+        ensures first_value(e, n) == (if by_name(e, n).len() > 0 { Some(by_name(e, n)[0]) } else { None::<Seq<u8>> })
+        decreases e.len()
+    {
+        if e.len() > 0 {
+            let d = e.drop_last();
+            lemma_first_value_by_name(d, n);
+            lemma_first_value_push(d, e.last(), n);
+            assert(d.push(e.last()) =~= e);
+        }
+    }
+    pub proof fn lemma_first_value_push(e: Seq<Hdr>, h: Hdr, n: Seq<u8>)
+        ensures first_value(e.push(h), n) == (match first_value(e, n) { Some(v) => Some(v), None => if h.name == n { Some(h.value) } else { None } })
+        decreases e.len()
+    {
+        reveal_with_fuel(first_value, 3);
+        if e.len() == 0 {
+            assert(e.push(h).subrange(1, 1) =~= Seq::<Hdr>::empty());
+            assert(e.push(h)[0] == h);
+        } else {
+            assert(e.push(h)[0] == e[0]);
+            if e[0].name != n {
+                assert(e.push(h).subrange(1, e.push(h).len() as int) =~= e.subrange(1, e.len() as int).push(h));
+                lemma_first_value_push(e.subrange(1, e.len() as int), h, n);
+            }
+        }
+    }
